@@ -15,6 +15,7 @@ EXPLANATION = (
     "exports decode with a matched error arm (no unwrap on the request path); (R5) section offsets/lengths are gated before "
     "slicing. Bounds-check panics on slice indexing, loop termination and proportionality beyond pre-allocation are NOT decided."
     ' Round 2: (R6) a 64-bit length read from the input is never added/multiplied with plain arithmetic before an upper-bound gate (evaluated on the helper-inlined view); (R7) a constant index into a Vec filled from the input is dominated by a non-emptiness gate on the Vec or its declared count.'
+    ' Round 6: (R8) in a recursive decoder that debits a cumulative node budget before pre-allocating, every input-sized pre-allocation is dominated by such a debit (sibling arms agree).'
     ' Every recursive call passes an ADVANCED depth (x + k, checked_add) — a call that passes the depth on unchanged makes the bound vacuous.'
 )
 ASSUMPTIONS = ["third-party decoders (minicbor, ciborium, serde) are total", "indexing safety is value-range reasoning and out of static reach"]
